@@ -194,7 +194,14 @@ impl ActiveEdge {
                 // update slope if we're going to be using it
                 // we want to avoid dividing by 0 which can happen if we exited the loop above early
                 if (cury + 1) < self.y2 {
-                    self.slope_x = div_fixed16_fixed16(self.next_x - self.old_x, self.next_y - self.old_y) >> 2;
+                    let slope = div_fixed16_fixed16(self.next_x - self.old_x, self.next_y - self.old_y);
+                    self.slope_x = slope >> 2;
+                    // The new segment starts at old_y, which lies somewhere between this sample row
+                    // and the next one, so only the rest of the row is covered with the new slope.
+                    // (A full step of a steep slope_x would overshoot by up to a whole step.)
+                    let dy = dot2_to_dot16(cury + 1) - self.old_y;
+                    self.fullx = self.old_x + ((slope as i64 * dy as i64) >> 16) as i32;
+                    return;
                 }
             }
             self.fullx += self.slope_x;
